@@ -167,7 +167,27 @@ def _b(x):
 
 
 class Sym:
-    __hash__ = None
+    def __hash__(self):
+        # identity hash: lets a proxy be a dict key / set member; any equality probe on a collision ends in __bool__ -> Unsupported
+        return id(self) >> 4
+
+    def __float__(self):
+        raise Unsupported(f'raw float() on {type(self).__name__} (un-modelled built-in called with a proxy)')
+
+    def __int__(self):
+        raise Unsupported(f'raw int() on {type(self).__name__} (un-modelled built-in called with a proxy)')
+
+    def __trunc__(self):
+        raise Unsupported(f'raw trunc() on {type(self).__name__}')
+
+    def __round__(self, *a):
+        raise Unsupported(f'raw round() on {type(self).__name__}')
+
+    def __complex__(self):
+        raise Unsupported(f'raw complex() on {type(self).__name__}')
+
+    def __bytes__(self):
+        raise Unsupported(f'raw bytes() on {type(self).__name__}')
 
     def __bool__(self):
         raise Unsupported(f'raw bool() on {type(self).__name__}')
@@ -197,6 +217,7 @@ class Sym:
 
 
 class SymBool(Sym):
+    __hash__ = Sym.__hash__
     def __init__(self, e):
         self.e = z3.BoolVal(e) if isinstance(e, bool) else e
 
@@ -210,6 +231,7 @@ class SymBool(Sym):
 
 
 class SymNum(Sym):
+    __hash__ = Sym.__hash__
     """common part of SymInt / SymReal.  pytype is the Python type the value stands for (int, bool, float)."""
     pytype = int
 
@@ -293,6 +315,7 @@ class SymReal(SymNum):
 
 
 class SymStr(Sym):
+    __hash__ = Sym.__hash__
     pytype = str
 
     def __init__(self, e):
@@ -355,6 +378,7 @@ class SymStr(Sym):
 
 
 class SymEnum(Sym):
+    __hash__ = Sym.__hash__
     """term over a finite domain of python objects, compared by identity"""
 
     def __init__(self, e, domain):
